@@ -169,8 +169,8 @@ func TestC09Controlled(t *testing.T) {
 	p.maxOps = 12
 	p.shutdownPct = 20 // every watcher finishes (or the context ends) and EnableVerification is called afterwards
 	p.lateOps = []string{"enable", "enable", "view"}
-	p.slowPct, p.wReleaseCB = 20, 1 // a lagging callback goroutine: what is withheld is decided when an event is queued, not when it is delivered
-	p.wRegister = 2
+	p.slowPct, p.wReleaseCB = 35, 1 // a lagging callback goroutine: what is withheld is decided when an event is queued, not when it is delivered
+	p.wRegister = 3
 	vrt.Check(t, vrt.Prop[Scenario]{
 		ID: "C09", Name: "controlled",
 		Rule: "all four combinations of DelayInitialVerification x CallGlobalCallbacksAfterVerificationEnabled (delay drawn with probability 2/3), 0..3 watching sources, sequences of valid / invalid reports, source error reports and repeated EnableVerification calls in any order, in a fifth of the histories followed by a shutdown (cancel, or every watcher Done) and further EnableVerification calls; " +
@@ -211,6 +211,7 @@ func TestC08Shutdown(t *testing.T) {
 	p.unregTwicePct = 40
 	p.slowPct = 15
 	p.maxOps = 10
+	p.wDone = 1 // a watcher finishes (also twice) before the shutdown: the monitor lives on while another one watches
 	vrt.Check(t, vrt.Prop[Scenario]{
 		ID: "C08", Name: "shutdown",
 		Rule: "controlled histories that end in a shutdown (Config context cancelled, or every watcher calling Done in any order) followed by 1..6 late API calls of every kind (register, unregister - also twice -, enable, report, blocking report, error report, Done), with callbacks that block; each late call gets a 1h virtual-time context; " +
